@@ -47,6 +47,30 @@ def minsep_routine(ctx, rule):
                 callers.append(q)
         if len(callers) == 1:
             cands = callers
+    # a candidate without a height to look up (a helper that checks the two tables and hands them back) is not the look-up:
+    # the routine is the function that calls it
+    for _ in range(3):
+        if len(cands) != 1:
+            break
+        cf = p.funcs[cands[0]]
+        a0 = cf.node.args
+        own_params = [x.arg for x in a0.posonlyargs + a0.args + a0.kwonlyargs if x.arg not in ('self', 'cls')]
+        if own_params:
+            break
+        callers = []
+        for q, f in p.funcs.items():
+            for n in ast.walk(f.node):
+                if not isinstance(n, ast.Call):
+                    continue
+                hit = p.resolve_static(f.module, n.func, f) == cands[0] or (
+                    isinstance(n.func, ast.Attribute) and isinstance(n.func.value, ast.Name) and n.func.value.id in ('self', 'cls')
+                    and n.func.attr == cf.name and f.cls is not None and cf.cls is not None and
+                    p.find_method(f.cls, cf.name) is cf)
+                if hit and q not in callers:
+                    callers.append(q)
+        if len(callers) != 1:
+            break
+        cands = callers
     if len(cands) != 1:
         raise AnalysisError(rule, f'the routine that looks the minimum separation up (subscripts the parameters with '
                                   f"'MIN_SEP_VALS') was found {len(cands)} times: {cands}")
